@@ -106,6 +106,20 @@ def handler_denies(h, prog=None, f=None, region=None):
                 if g is not None and region is not None and \
                         g.qual in region:
                     continue
+            # a helper may answer with a marker its callers turn into a
+            # denial: judge the handler by the paths of those callers
+            if prog is not None and f is not None and region is not None:
+                callers = [g for g in region.values() if g is not f and any(
+                    isinstance(c, ast.Call) and prog.callee_of(g, c) is f
+                    for c in walk_no_nested(g.node))]
+                if callers:
+                    for g in callers:
+                        ok, why = _exits_after_handler_deny(
+                            prog, g, h, region, through=f)
+                        if not ok:
+                            return False, 'returns %s, and its caller %s ' \
+                                '%s' % (U(n.value), g.name, why)
+                    continue
             return False, 'returns %s' % U(n.value)
     if prog is not None and f is not None and _falls_through(h):
         return _exits_after_handler_deny(prog, f, h, region)
@@ -127,16 +141,21 @@ def _falls_through(h):
 _TABLES = {}
 
 
-def _exits_after_handler_deny(prog, f, h, region):
+def _exits_after_handler_deny(prog, f, h, region, through=None):
     """Every path of f through handler h ends in a falsy constant, or in the
     answer of another function of the evaluation region (an attempt that
     failed, followed by the next way of evaluating the same check)."""
     from ..dte import Table
-    key = (id(prog), f.qual)
+    key = (id(prog), f.qual, through.qual if through else None)
     t = _TABLES.get(key)
     if t is None:
         try:
-            t = Table(prog, f, handler_paths=True)
+            inl = None
+            if through is not None:
+                def inl(call, frame, through=through):
+                    g = prog.callee_of(frame, call)
+                    return g if g is through else None
+            t = Table(prog, f, handler_paths=True, inline=inl)
         except Exception as e:          # path explosion and the like
             raise AnalysisError('paths of %s not enumerable: %s' % (f.qual,
                                                                    e))
@@ -144,6 +163,8 @@ def _exits_after_handler_deny(prog, f, h, region):
     mine = [p for p in t.paths if any(
         c.kind == 'exc' and c.line == h.lineno for c in p.conds)]
     if not mine:
+        if through is not None:
+            return False, 'has no readable path through that handler'
         return True, ''
     for p in mine:
         if p.outcome.kind == 'raise':
